@@ -250,9 +250,11 @@ prop("C08", ["prims.go", "c08.go"],
      note="Bound: one establishment; DPOR 2 reversals quick, 3 thorough. " + ENGINE)
 prop("C11", ["prims.go", "c11.go"],
      [run("grpc-stdio", "harnessC11", ["delivered"], dpor=True,
-          quick={"max_reversals": 2, "race": True, "bound": "gRPC: two stdout chunks and one stderr chunk, each an opaque byte view of symbolic length 1..1024; all schedules with <= 2 reversals; happens-before race detection on the chunk buffer"})],
-     ["bufio.Reader.Read returns 1..len(p) bytes (a view over the source's next bytes)", "stream model whose Send reads the message bytes at call time (marshalling)"], ["bufio.Reader.Read", "generated stdio stream"],
-     "net/rpc stream wiring; > 3 chunks; io.Copy and the transports",
+          quick={"max_reversals": 2, "race": True, "bound": "gRPC: two stdout chunks and one stderr chunk, each an opaque byte view of symbolic length 1..1024; all schedules with <= 2 reversals; happens-before race detection on the chunk buffer"}),
+      run("composed", "harnessC11world", ["delivered", "written-before-attach"], files=WORLD,
+          quick={"bound": "host x plugin composed, net/rpc, gRPC and gRPC+mux, both launch methods: the plugin writes two stdout chunks and one stderr chunk (arbitrary contents, symbolic length 1..1024) to its process streams after serving began, before or after the host attached; what SyncStdout/SyncStderr received is compared with what was written"})],
+     ["bufio.Reader.Read returns 1..len(p) bytes (a view over the source's next bytes)", "stream model whose Send reads the message bytes at call time (marshalling)"] + WORLD_ASSUME, ["bufio.Reader.Read", "generated stdio stream"] + WORLD_STUBS,
+     "> 3 chunks; chunks larger than 1 KiB on the composed run; io.Copy and the transports (delegated)",
      text="Bounded symbolic model checking of the real newGRPCStdioServer, both copyChan goroutines (writing into the real [1024]byte array), StreamStdio and grpcStdioClient.Run: every chunk arrives once, unchanged, in order, on the right writer; plus happens-before race detection on the buffer (which is what exposes an aliased/hoisted buffer).",
      note="Bound: 2+1 chunks of symbolic length <= 1024; DPOR 2 reversals. " + ENGINE)
 prop("C20", ["prims.go", "c20.go"],
